@@ -36,6 +36,8 @@ fn main() {
         "C10" | "static" => c10::run(seed, n, replay, &mut out),
         "bundle" => bundle::run(seed, n, replay, &mut out),
         "util" => cutil::run(seed, n, replay, &mut out),
+        "C25" => c25::run(seed, n, replay, &mut out),
+        "C01" | "evm" => c01::run(seed, n, replay, &mut out),
         "C31" => c31::run(seed, n, replay, &mut out),
         "C02" => c02::run(seed, n, replay, &mut out),
         "C29" | "C30" => c29::run(seed, n, replay, &mut out, a[1].as_str()),
@@ -53,7 +55,6 @@ fn main() {
         "C34j" => c34::run(seed, n, replay, &mut out),
         "C34tx" => c34tx::run(seed, n, replay, &mut out),
         "C28" | "inspwrap" => c28::run(seed, n, replay, &mut out),
-        "C25" => c25::run(seed, n, replay, &mut out),
         other => {
             eprintln!("unknown component {other}");
             std::process::exit(2);
